@@ -3,16 +3,12 @@
   (core Lean only; evaluated by the driver op `c08dom` so that the Python side can count how many
   generated cases lie inside the proved region).
 
-  `dom` excludes exactly the regions where the unchanged tree deviates from X.680 (each has a
-  counter-example theorem in Props/C08.lean) plus structures that cannot sit in the C types:
+  `dom` excludes exactly the regions where the tree deviates from X.680 (each has a
+  counter-example theorem in Props/C08.lean) plus structures that cannot sit in the C types.
+  It puts no restriction on the shape of SEQUENCE / SET / CHOICE types (F25, the early return of
+  the SEQUENCE / SET walkers, is repaired): only the leaves are restricted.
 
-  F25  SEQUENCE: a component without constraints of its own before the last one (the walker
-       returns that component's verdict); SET: more than one component.
-  F26  `INTEGER (0..4294967295)` (`native_long_sign == 0`: test compiled away).
-  F48  a generated checker with nothing applicable that falls back to itself (named type or
-       inline unsigned-long INTEGER with a vacuous constraint, alias of a list type with vacuous SIZE).
   F81  INTEGER_t-backed INTEGER whose value does not fit `long` ("value too large").
-  F82  SIZE on a named SEQUENCE OF / SET OF type (never tested at type level).
   F83  FROM on UTF8String / OCTET STRING / BIT STRING (ignored or not applicable).
   F84  UTF-8 sequences on which UTF8String_length (RFC 2279 era) and RFC 3629 disagree.
   F85  a union whose overall span is vacuous for the C type is dropped as a whole
@@ -38,7 +34,7 @@ def reprOK (r : IntRepr) (i : Int) : Bool :=
   | _ => decide (-9223372036854775808 ≤ i) && decide (i ≤ 9223372036854775807)
 
 def intDom (rs : Cons) (i : Int) : Bool :=
-  !rs.isEmpty && nativeLongSign rs != 0 && reprOK (fitsLong rs) i
+  !rs.isEmpty && reprOK (fitsLong rs) i
   && mixedFree rs (intNs rs) none && (!dropped rs || rs.length == 1)
 
 /-- the generated INTEGER checker contains a test -/
@@ -79,55 +75,33 @@ def strDom (k : StrKind) (size alpha : Option Cons) (bs : List Nat) (unused : Na
   && (k != .utf8 || utf8Agree bs)
   && (k != .bmp || (loopChars 2 bs.length bs).all (· ≤ 65533))
 
-/-- the generated string checker contains a test (for the kinds with a compiled alphabet
-    function it always does) -/
-def strTests (k : StrKind) (size : Option Cons) : Bool :=
-  match k with
-  | .octet | .bit => (keptSize size).isSome
-  | _ => true
-
-/-- all components but the last carry constraints of their own (no F25 early return) -/
-def seqShape : Members → Bool
-  | .nil => true
-  | .cons _ _ _ .nil => true
-  | .cons _ _ t rest => hasOwn t && seqShape rest
-
-def setShape : Members → Bool
-  | .nil => true
-  | .cons _ _ _ .nil => true
-  | _ => false
-
 mutual
-/-- guard for `descrChk _ alias t v` -/
-def domDescr (alias : Bool) : Ty → Val → Bool
-  | .named _ t, v => domDescr true t v
+/-- guard for `descrChk _ t v` -/
+def domDescr : Ty → Val → Bool
+  | .named _ t, v => domDescr t v
   | .int none, .int i => reprOK .long i
-  | .int (some rs), .int i => intDom rs i && intTests rs
-  | .str k size alpha, v =>
-      (match strValue k v with
-       | some (bs, u) => strDom k size alpha bs u && ((size.isNone && alpha.isNone) || strTests k size)
-       | none => true)
-  | .seq ms, .struct fs => seqShape ms && domMembers ms fs
-  | .set ms, .struct fs => setShape ms && domMembers ms fs
-  | .choice ms, .choice sel v => domAlt ms sel v
-  | .listOf _ size elem, .list vs =>
-      (match alias, size with
-       | true, some rs => sizeDom rs && sizeTests rs
-       | false, some _ => false
-       | _, none => true)
-      && vs.all (fun v => domMember elem v)
-  | _, _ => true
-/-- guard for `memberChk _ t v` -/
-def domMember : Ty → Val → Bool
-  | .named _ t, v => domDescr false t v
-  | .int none, .int i => reprOK .long i
-  | .int (some rs), .int i => intDom rs i && (fitsLong rs != .ulong || intTests rs)
+  | .int (some rs), .int i => intDom rs i
   | .str k size alpha, v =>
       (match strValue k v with
        | some (bs, u) => strDom k size alpha bs u
        | none => true)
-  | .seq ms, .struct fs => seqShape ms && domMembers ms fs
-  | .set ms, .struct fs => setShape ms && domMembers ms fs
+  | .seq ms, .struct fs => domMembers ms fs
+  | .set ms, .struct fs => domMembers ms fs
+  | .choice ms, .choice sel v => domAlt ms sel v
+  | .listOf _ size elem, .list vs =>
+      sizeOptDom size && vs.all (fun v => domMember elem v)
+  | _, _ => true
+/-- guard for `memberChk _ t v` -/
+def domMember : Ty → Val → Bool
+  | .named _ t, v => domDescr t v
+  | .int none, .int i => reprOK .long i
+  | .int (some rs), .int i => intDom rs i
+  | .str k size alpha, v =>
+      (match strValue k v with
+       | some (bs, u) => strDom k size alpha bs u
+       | none => true)
+  | .seq ms, .struct fs => domMembers ms fs
+  | .set ms, .struct fs => domMembers ms fs
   | .choice ms, .choice sel v => domAlt ms sel v
   | .listOf _ size elem, .list vs =>
       sizeOptDom size && vs.all (fun v => domMember elem v)
@@ -144,6 +118,6 @@ def domAlt : Members → String → Val → Bool
 end
 
 /-- the guard domain of `check_iff_satisfies_partial` for `asn_check_constraints(&asn_DEF_name, v)` -/
-def dom (_name : String) (t : Ty) (v : Val) : Bool := domDescr false t v
+def dom (_name : String) (t : Ty) (v : Val) : Bool := domDescr t v
 
 end Asn1c.Impl.ConstraintCheck
